@@ -6,7 +6,8 @@
    All statements hold for every m, k, and every input list (any length, any index lists, repeated
    indices inside a list, copies with equal or different index lists, any order). *)
 From Coq Require Import List NArith Bool Permutation.
-From MV Require Import Base.Prelude C02.Model C02.Spec C02.Proofs C02.Proofs4 C02.Proofs5.
+From MV Require Import C01.Model.
+From MV Require Import Base.Prelude C02.Model C02.Spec C02.Proofs C02.Proofs4 C02.Proofs5 C02.LinkC01.
 Import ListNotations.
 Open Scope N_scope.
 
@@ -92,7 +93,35 @@ Theorem C02_aggregate_monotone : forall (n m k : N) (l l' res : list sr),
   exists res', aggregate n m k l' = Some res' /\ valid_quorum m k l' res' /\ forall r, In r res' -> slot r < n.
 Proof. exact aggregate_monotone. Qed.
 
+(* 1'. link to C01: read the result as a ConcatenationProof (any batch path).  Under an interpretation of
+       sigma ranks / registration entries as C01 objects for which the model's validity flag means what
+       C01 checks ([embeds]), the C01 verifier's per-signature index and lottery checks, its uniqueness
+       test and its `< k` test all pass (prelim reduces to the Merkle batch-path check, which is C09's
+       completeness theorem for the path the clerk computes and is exercised, not proved, here), the
+       aggregate-signature check passes, and so the result verifies as soon as its batch path does. *)
+Theorem C02_result_passes_C01 :
+  forall (sigma_of : N -> MV.Base.IdealSig.sg) (vk_of stake_of : N -> N) (won : lot) (phi : N)
+         (msg : list N) (a : avk) (m k : N) (l res : list sr) (vals : list MV.Base.SymHash.bt) (pidx : list N),
+  embeds sigma_of vk_of stake_of won phi msg a m l ->
+  select m k l = Some res ->
+  let g := {| a_sigs := map (to_sigreg sigma_of vk_of stake_of) res; a_vals := vals; a_pidx := pidx |} in
+  let p := {| p_m := m; p_k := k; p_phi := phi |} in
+  prelim won p msg a g = ver_bpath (av_root a) (av_nl a) (leaves_of (a_sigs g)) vals pidx /\
+  sagg (msgp msg (av_root a)) (a_sigs g) = true /\
+  (ver_bpath (av_root a) (av_nl a) (leaves_of (a_sigs g)) vals pidx = Ok true ->
+   C01.Model.verify won p msg a g = Ok true).
+Proof.
+  exact (fun sigma_of vk_of stake_of won phi msg a m k l res vals pidx He Hs =>
+           quorum_passes_c01 sigma_of vk_of stake_of won phi msg a m k l res vals pidx He (select_sound m k l res Hs)).
+Qed.
+
 (* non-vacuity *)
+Example C02_ex_embeds :
+  embeds (fun g => SigOf (if g =? 5 then 1 else 2) (msgp [7] (MV.Base.SymHash.BLit []))) (fun e => e + 1) (fun _ => 1)
+         (fun _ _ _ _ _ _ => true) 0 [7] {| av_root := MV.Base.SymHash.BLit []; av_nl := 3; av_total := 3 |} 10 ex_l.
+Proof.
+  intros o [<-|[<-|[<-|[]]]] Hv; try (vm_compute in Hv; discriminate); (split; [vm_compute; reflexivity | intros; reflexivity]).
+Qed.
 Example C02_ex_covered : covered 10 ex_l = [0; 1; 2; 3].
 Proof. vm_compute. reflexivity. Qed.
 Example C02_ex_select :
